@@ -4,11 +4,9 @@ package runtime
 
 // vref_cssDecode decodes CSS escapes in a string token per CSS Syntax 3 §4.3.7:
 // '\' followed by 1-6 hex digits and one optional whitespace, or '\' followed
-// by any other code point. Code points >= 0x80 are not produced by the
-// escaper (it escapes only ASCII), so a decoded escape value is kept as one
-// byte when < 0x80 and flagged otherwise.
+// by any other code point. The escaper only escapes ASCII, so a decoded escape
+// must be a non-zero value < 0x80.
 func vref_cssDecode(b []byte) (out []byte, ok bool) {
-	ok = true
 	for i := 0; i < len(b); {
 		c := b[i]
 		if c != '\\' {
@@ -21,8 +19,8 @@ func vref_cssDecode(b []byte) (out []byte, ok bool) {
 			return out, false // escape at end of string
 		}
 		if vhexval(b[i]) < 0 {
-			if b[i] == '\n' {
-				return out, false
+			if b[i] == '\n' || b[i] == '\r' || b[i] == '\f' {
+				return out, false // escaped newline is a line continuation
 			}
 			out = append(out, b[i])
 			i++
@@ -43,23 +41,150 @@ func vref_cssDecode(b []byte) (out []byte, ok bool) {
 		}
 		out = append(out, byte(v))
 	}
-	return out, ok
+	return out, true
+}
+
+// vref_jsDecode decodes a JavaScript/JSON string literal body. \uXXXX is
+// decoded to UTF-8 (only BMP non-surrogates are produced by the escaper).
+func vref_jsDecode(b []byte) (out []byte, ok bool) {
+	for i := 0; i < len(b); {
+		c := b[i]
+		if c != '\\' {
+			out = append(out, c)
+			i++
+			continue
+		}
+		i++
+		if i >= len(b) {
+			return out, false
+		}
+		switch b[i] {
+		case 'b':
+			out = append(out, '\b')
+		case 'f':
+			out = append(out, '\f')
+		case 'n':
+			out = append(out, '\n')
+		case 'r':
+			out = append(out, '\r')
+		case 't':
+			out = append(out, '\t')
+		case '"', '\\', '/':
+			out = append(out, b[i])
+		case 'u':
+			if i+4 >= len(b) {
+				return out, false
+			}
+			v := 0
+			for k := 1; k <= 4; k++ {
+				h := vhexval(b[i+k])
+				if h < 0 {
+					return out, false
+				}
+				v = v*16 + h
+			}
+			i += 4
+			switch {
+			case v < 0x80:
+				out = append(out, byte(v))
+			case v < 0x800:
+				out = append(out, byte(0xC0|v>>6), byte(0x80|v&0x3F))
+			case v >= 0xD800 && v < 0xE000:
+				return out, false
+			default:
+				out = append(out, byte(0xE0|v>>12), byte(0x80|(v>>6)&0x3F), byte(0x80|v&0x3F))
+			}
+		default:
+			return out, false // not a JSON escape
+		}
+		i++
+	}
+	return out, true
+}
+
+// vref_percentDecode decodes %XX sequences; anything else is kept.
+func vref_percentDecode(b []byte) (out []byte, ok bool) {
+	for i := 0; i < len(b); {
+		if b[i] != '%' {
+			out = append(out, b[i])
+			i++
+			continue
+		}
+		if i+2 >= len(b) || vhexval(b[i+1]) < 0 || vhexval(b[i+2]) < 0 {
+			return out, false
+		}
+		out = append(out, byte(vhexval(b[i+1])<<4|vhexval(b[i+2])))
+		i += 3
+	}
+	return out, true
 }
 
 func vc07_css(n int) {
 	s := vsym_string(n)
-	// NUL cannot be represented in CSS (decodes to U+FFFD by specification).
+	// NUL cannot be represented in CSS (it decodes to U+FFFD by specification).
 	for i := 0; i < len(s); i++ {
 		vassume(s[i] != 0)
 	}
 	var w vWriter
-	err := cssStringEscape(&w, s)
+	err := showInCSSString(nil, &w, vStringer{s})
 	vassert(err == nil, "no-error")
 	dec, ok := vref_cssDecode(w.buf)
 	vassert(ok, "well-formed-escapes")
 	vassert(string(dec) == s, "css-roundtrip")
 }
 
-func vh_c07_css_q() { vc07_css(2) }
-func vh_c07_css_t() { vc07_css(4) }
+func vc07_html(n int) {
+	s := vsym_string(n)
+	var w vWriter
+	err := showInHTML(nil, &w, vStringer{s})
+	vassert(err == nil, "no-error")
+	dec, ok := vref_htmlDecode(w.buf)
+	vassert(ok, "well-formed-references")
+	vassert(string(dec) == s, "html-roundtrip")
+}
 
+func vc07_attr(n int, quoted bool) {
+	s := vsym_string(n)
+	var w vWriter
+	err := showInAttribute(nil, &w, vStringer{s}, quoted)
+	vassert(err == nil, "no-error")
+	dec, ok := vref_htmlDecode(w.buf)
+	vassert(ok, "well-formed-references")
+	vassert(string(dec) == s, "attr-roundtrip")
+}
+
+func vc07_js(n int) {
+	s := vsym_string(n)
+	var w vWriter
+	err := showInJSString(nil, &w, vStringer{s})
+	vassert(err == nil, "no-error")
+	dec, ok := vref_jsDecode(w.buf)
+	vassert(ok, "well-formed-escapes")
+	vassert(string(dec) == s, "js-roundtrip")
+	var w2 vWriter
+	err = showInJSONString(nil, &w2, vStringer{s})
+	vassert(err == nil && string(w2.buf) == string(w.buf), "json-same-as-js")
+}
+
+func vc07_query(n int) {
+	s := vsym_string(n)
+	var w vWriter
+	k, err := queryEscape(&w, s)
+	vassert(err == nil && k == len(w.buf), "count")
+	dec, ok := vref_percentDecode(w.buf)
+	vassert(ok, "well-formed-escapes")
+	vassert(string(dec) == s, "query-roundtrip")
+}
+
+func vh_c07_css_q()   { vc07_css(3) }
+func vh_c07_css_t()   { vc07_css(5) }
+func vh_c07_html_q()  { vc07_html(4) }
+func vh_c07_html_t()  { vc07_html(7) }
+func vh_c07_attrq_q() { vc07_attr(4, true) }
+func vh_c07_attrq_t() { vc07_attr(7, true) }
+func vh_c07_attru_q() { vc07_attr(3, false) }
+func vh_c07_attru_t() { vc07_attr(5, false) }
+func vh_c07_js_q()    { vc07_js(3) }
+func vh_c07_js_t()    { vc07_js(5) }
+func vh_c07_query_q() { vc07_query(3) }
+func vh_c07_query_t() { vc07_query(4) }
